@@ -7,9 +7,11 @@ import os
 import random
 import signal
 import tempfile
+import zlib
 from pathlib import PurePosixPath
 
 from streamflow.config.config import WorkflowConfig
+from streamflow.config.validator import SfValidator
 from streamflow.core.exception import WorkflowDefinitionException
 from streamflow.deployment.utils import get_binding_config
 
@@ -36,6 +38,15 @@ def time_limit(seconds: int):
     finally:
         signal.alarm(0)
         signal.signal(signal.SIGALRM, old)
+
+
+_VALIDATOR = []
+
+
+def _validator():
+    if not _VALIDATOR:
+        _VALIDATOR.append(SfValidator())
+    return _VALIDATOR[0]
 
 
 def o(s):  # Optional[str] -> protocol
@@ -77,7 +88,8 @@ def gen_case(rng: random.Random, search: bool):
     cyc = rng.random() < 0.3
     deps = {}
     for i, n in enumerate(dep_names):
-        d = {"type": rng.choice(["docker", "ssh", "local", "slurm"]), "config": {}}
+        ty = rng.choice(["docker", "ssh", "local", "slurm"])
+        d = {"type": ty, "config": {"docker": {"image": "img"}, "ssh": {"nodes": ["h"], "username": "u"}}.get(ty, {})}
         if rng.random() < 0.35:
             d["workdir"] = rng.choice(WORKDIRS)
         r = rng.random()
@@ -103,16 +115,16 @@ def gen_case(rng: random.Random, search: bool):
             path = "/"
         if rng.random() < 0.03:
             path = gen_path(rng, absolute=False)
-        nt = 1 if rng.random() < 0.6 else rng.randint(1, 3)
+        nt = 1 if rng.random() < 0.6 or (kind == "port" and rng.random() < 0.93) else rng.randint(1, 3)
         targets = []
         for _ in range(nt):
             t = {"deployment": rng.choice(dep_names), "locations": rng.randint(1, 99)}
-            if rng.random() < (0.9 if kind == "port" else 0.3):
+            if rng.random() < (0.97 if kind == "port" else 0.3):
                 t["workdir"] = rng.choice(WORKDIRS)
             if rng.random() < 0.2:
                 t["service"] = "svc"
             targets.append(t)
-        as_list = nt > 1 or rng.random() < 0.2
+        as_list = nt > 1 or rng.random() < (0.03 if kind == "port" else 0.2)
         b = {kind: path, "target": targets if as_list else targets[0]}
         r = rng.random()
         if r < 0.15:
@@ -274,8 +286,22 @@ class C28(Property):
 
     def _run_case(self, ctx: Ctx, case, lines, expect, meta, bucket):
         deps, bindings = case["deployments"], case["bindings"]
-        config = {"workflows": {"wf": {"type": "cwl", "config": {}, "bindings": copy.deepcopy(bindings)}},
+        config = {"version": "v1.0", "workflows": {"wf": {"type": "cwl", "config": {"file": "main.cwl"}, "bindings": copy.deepcopy(bindings)}},
                   "deployments": copy.deepcopy(deps), "bindingFilters": copy.deepcopy(case["filters"])}
+        # half of the configurations go through the JSON-schema validation of the StreamFlow file first (as `streamflow run`
+        # does); the validator must accept them unchanged or reject them — a rejected one is still given to the constructor
+        if zlib.crc32(repr(case).encode()) % 2 == 0:
+            try:
+                with time_limit(20):
+                    validated = _validator().validate(copy.deepcopy(config))
+                ctx.count("schema:accepted")
+                if validated != config:
+                    ctx.count("schema:normalised")
+                config = validated
+            except WorkflowDefinitionException:
+                ctx.count("schema:rejected")
+            except Hang:
+                ctx.count("schema:slow")
 
         def q(line, exp, what):
             lines.append(line)
